@@ -144,9 +144,7 @@ structure SwCase where
   ftComment : Bool   -- a fall-through comment is present (leading comments of the next case / trailing of the last stmt)
 
 /-- `Stmt::Decl(_) | Stmt::Expr(_)`: their metadata is not consulted by `no-fallthrough` -/
-def isDeclOrExpr : Stmt → Bool
-  | .simple _ (.fnDecl _) _ | .simple _ .varNoInit _ | .simple _ .tsDecl _ | .simple _ .decl _ | .simple _ .exprStmt _ => true
-  | _ => false
+def isDeclOrExpr (s : Stmt) : Bool := s.isDeclOrExpr
 
 def stopHere (info : Info) (ls : List Id) (s : Stmt) : List Nat :=
   if !isDeclOrExpr s && metaStops info s.pos && (s.compl ls).n then [s.pos] else []
